@@ -224,4 +224,26 @@ theorem index_shift_sq_le_kappa (a b e : V2) (kappa : ℚ) (hd : det2 a b ≠ 0)
       _ ≤ norm2 e * (kappa * det2 a b ^ 2) := mul_le_mul_of_nonneg_left hk hne
       _ = kappa * norm2 e * det2 a b ^ 2 := by ring
 
+theorem rabs_eq_abs (x : ℚ) : rabs x = |x| := by
+  unfold rabs
+  split_ifs with h
+  · rw [abs_of_neg h]
+  · rw [abs_of_nonneg (not_lt.mp h)]
+
+theorem rmax_eq_max (a b : ℚ) : rmax a b = max a b := by
+  unfold rmax
+  split_ifs with h
+  · rw [max_eq_right h]
+  · rw [max_eq_left (le_of_lt (not_le.mp h))]
+
+/-- the relaxation factor of a fractional index within `η` of `c` -/
+theorem rmax_rabs_le (x c eta : ℚ) (h : |x - c| ≤ eta) : rmax 1 (rabs x) ≤ max 1 (|c| + eta) := by
+  rw [rabs_eq_abs, rmax_eq_max]
+  apply max_le_max (le_refl _)
+  have : |x| ≤ |c| + |x - c| := by
+    have := abs_add_le c (x - c)
+    rw [add_sub_cancel] at this
+    exact this
+  linarith
+
 end Model
